@@ -270,14 +270,11 @@ def formatted_length(prog, chk, fs):
             S = q.no_casts(f.r(args[1]))
             atoms = fin.dominating_atoms(f, f.node_pos(s.node))
             ok = None
-            for a in atoms:
-                if a[0] == "case" or not a[1]:
-                    continue
-                k = q.no_casts(fin.key(f, a[0]))
-                if k == "(%s < %s)" % (rv, S):
-                    ok = "result < size given to vsnprintf"
-                if k == "(%s <= (%s - 1))" % (rv, S):
-                    ok = "result <= size - 1"
+            rel = fin.relations(f, f.node_pos(s.node), render=lambda i: q.no_casts(f.r(i)))
+            if (rv, "<", S) in rel:
+                ok = "result < size given to vsnprintf"
+            elif (rv, "<=", "(%s - 1)" % S) in rel:
+                ok = "result <= size - 1"
             if ok is None and S == "(%s + 1)" % rv:
                 # second pass: the size is the measured length + 1, and the block was detached for that length
                 meas = [o for o in vs if q.is_zero(f, q.call_args(f, o)[1]) and q.reaches(f, o, c)]
